@@ -22,7 +22,7 @@ func NewFile(name string, filemode os.FileMode, t time.Time, data []byte) *File 
 		name:     name,
 		filemode: filemode,
 		time:     t,
-		data:     data,
+		data:     append([]byte(nil), data...),
 	}
 }
 
@@ -60,7 +60,10 @@ func (f *File) IsDir() bool {
 func (f *File) getData() []byte {
 	f.dataMU.RLock()
 	defer f.dataMU.RUnlock()
-	return f.data
+	// hand out a snapshot: the caller may keep or modify it
+	data := make([]byte, len(f.data))
+	copy(data, f.data)
+	return data
 }
 
 // setData set new file data bytes
@@ -68,5 +71,6 @@ func (f *File) setData(data []byte) {
 	f.dataMU.Lock()
 	defer f.dataMU.Unlock()
 	f.time = time.Now()
-	f.data = data
+	// keep a private copy: the caller may reuse its buffer
+	f.data = append([]byte(nil), data...)
 }
